@@ -43,8 +43,11 @@ ASSUMPTIONS = [
     "subscripts sorted with each name once, products flat and in stable-sorted order without constant factors, Zero() only as the "
     "whole expression). Closure of `built` under `*`, `/` and Sum[...] IS a theorem (built_closed_mul/div/sum, for any asymmetric "
     "sort order; asymmetry is proved for the pinned _get_key order, for the total key of the expr family it is their key_total); "
-    "that the leaf builders P/P[..]/PP[..]/Q[..] produce built objects is NOT a theorem (OPEN: built_closed_builders): it is "
-    "decided by the model on every Python-built object of every run (correspondence stream `domain`)",
+    "closure under the leaf builders P/P[..]/PP[..]/Q[..] and the variable operators + - ~ @ is proved builder by builder "
+    "(built_closed_P, built_closed_P_ivs, built_closed_Q, canon_closed_at, canon_closed_sign; arguments canonical with pairwise "
+    "distinct names). OPEN: built_of_eval, the composition of these along the interpreter's dispatch into one statement over "
+    "construction syntax trees; meanwhile `built` is also decided by the model on every Python-built object of every run "
+    "(correspondence stream `domain`)",
     "quantifier: variable names are those of the parser's name table (A..Z without P/Q, Pi, π, with optional digit or _digit); "
     "a user-chosen name outside the table (e.g. 'AA') cannot be parsed by design of parse_y0 and is outside the property; the one such "
     "name the LIBRARY itself produces (TARGET_DOMAIN = 'pi*', the tag of transport estimands) is an OPEN known finding",
